@@ -79,8 +79,10 @@ def _sections_of(elf):
 def make_case(rng, with_faults):
     files = {}
     shape = {}
-    if rng.random() < 0.12:
-        name = rng.choice(REAL_ELFS)
+    r0 = rng.random()
+    if r0 < 0.12:
+        # mostly the small ones; now and then an object whose listing is hundreds of kB / close to 1 MB
+        name = rng.choice(REAL_ELFS) if r0 > 0.012 else ("md5sum" if r0 > 0.003 else "cp.bin")
         elf = _real_elf(name)
         if elf is None:
             return None
